@@ -87,7 +87,7 @@ def ind_snapshot(ind: Individual, b, problem):
             "phenotype": None if ind.phenotype is None else node_snapshot(ind.phenotype, b, {})}
 
 
-def still_valid(old, new, dsge: bool):
+def still_valid(old, new, dsge: bool, mapped: bool = False):
     """old snapshot still describes the individual: equal, except permitted fills"""
     if old["fitness"] is not None and old["fitness"] != new["fitness"]:
         return "cached fitness changed"
@@ -101,7 +101,9 @@ def still_valid(old, new, dsge: bool):
         if all(k in nd and nd[k][:len(v)] == v for k, v in od.items()):
             # on-demand extension is permitted only while THIS genotype is being mapped, i.e. when
             # its phenotype cache went from empty to filled since the snapshot
-            if old["phenotype"] is None and new["phenotype"] is not None:
+            if old["phenotype"] is None and (new["phenotype"] is not None or mapped):
+                # (`mapped`: this is the individual the operation was mapping; a mapping that FAILS midway has extended
+                # the genotype too, and leaves no phenotype behind)
                 return None
             return "genes appended although this individual was not being mapped (gene lists shared with another genotype?)"
         return "genes changed (not a pure extension)"
@@ -123,9 +125,9 @@ class Watch:
         """after permitted fills (evaluation) take the snapshots again"""
         self.live = [(i, ind_snapshot(i, self.b, self.problem)) for i, _ in self.live]
 
-    def verify(self, site, label, replay):
+    def verify(self, site, label, replay, mapped=None):
         for i, snap in self.live:
-            why = still_valid(snap, ind_snapshot(i, self.b, self.problem), self.dsge)
+            why = still_valid(snap, ind_snapshot(i, self.b, self.problem), self.dsge, mapped=any(i is m for m in (mapped or ())))
             if why:
                 self.h.fail(f"{self.prefix}{site}", "input-modified", f"{label}: {why}", replay)
                 return False
@@ -307,13 +309,13 @@ def run(h: Harness):
                     new = []
                     # mapping ONE individual: every other live individual is untouched (a genotype that shares a gene list
                     # with the one being mapped would grow with it), the mapped one only gains its cache / extension
-                    if not w.verify("genotype_to_phenotype", f"{name}.genotype_to_phenotype of another individual", [line, name, seedv, k]):
+                    if not w.verify("genotype_to_phenotype", f"{name}.genotype_to_phenotype of another individual", [line, name, seedv, k], mapped=[a]):
                         break
-                    w.refresh() if st == "ok" else None
+                    w.refresh()
                 else:
                     st, out = safe(lambda: ev.evaluate(problem, [a, c]))
                     new = []
-                    if not w.verify("evaluate", f"evaluating two individuals of a {name} pool", [line, name, seedv, k]):
+                    if not w.verify("evaluate", f"evaluating two individuals of a {name} pool", [line, name, seedv, k], mapped=[a, c]):
                         break
                     w.refresh()
                 h.seen(f"{line}:{name}:{seedv}:op{k}:{op}", nontrivial=bool(new))
